@@ -3,7 +3,7 @@
 id="$1"; wt="$2"; prop="$3"; demo="$4"; needs="$5"; caught="$6"
 d=/verif/seeded/$id; mkdir -p $d
 cp $wt/patch.diff $d/patch.diff
-cp -r $wt/demo $d/demo 2>/dev/null
+cp -r $wt/demo $d/ 2>/dev/null; mkdir -p $d/demo
 [ -f $wt/crates/sas-lexer/tests/$demo.rs ] && cp $wt/crates/sas-lexer/tests/$demo.rs $d/demo/ 2>/dev/null
 python3 - "$id" "$prop" "$demo" "$needs" "$caught" <<'PY'
 import json,sys
